@@ -88,6 +88,8 @@ V_ASSIGNS(V_STOP_FRAME)
 V_ENSURES(V_MOD_OK && V_INV && g_ctx->curr_mod == V_OLD(g_ctx->curr_mod))                 /*@C01.running-count-equals-running-modules*/ /*@C03.loop-exit-condition-counts-exactly-the-running-modules*/                                                                         /*@C01.running-count-equals-running-modules*/
 V_ENSURES(V_IMP(g_ms_ret != 0, V_RET == g_ms_ret && g_mod->state == V_OLD(g_mod->state) && g.on_stop_calls == V_OLD(g.on_stop_calls) && g.sys_msgs == V_OLD(g.sys_msgs) && g.reset_calls == V_OLD(g.reset_calls)))
 V_ENSURES(g.on_eval_calls == V_OLD(g.on_eval_calls) && g.ms_calls == V_OLD(g.ms_calls) + 1 && g.ms_flag == RM && g.ms_stop == stopping && g.ips_calls == V_OLD(g.ips_calls))
+/* every pin taken on the module while stopping (the stop callback's) is dropped again */
+V_ENSURES(g.ref_calls - V_OLD(g.ref_calls) == g.unref_calls - V_OLD(g.unref_calls))                                                          /*@C04.pins-balanced-across-stop*/
 /* pause: RUNNING -> PAUSED, neither callback runs, sources kept, one MOD_STOPPED notification naming the module */
 V_ENSURES(V_IMP(g_ms_ret == 0 && !stopping, V_RET == 0 && g_mod->state == M_MOD_PAUSED && g.on_stop_calls == V_OLD(g.on_stop_calls) && g.on_start_calls == V_OLD(g.on_start_calls)
                 && g.reset_calls == V_OLD(g.reset_calls) && g.srcs_dropped == V_OLD(g.srcs_dropped)))                                        /*@C01.pause-runs-no-callback-keeps-sources*/
@@ -144,7 +146,8 @@ V_ENSURES(V_IMP(mod != NULL && g_modref_in != NULL && !(V_OLD(g_mod->state) & M_
                 && (g_mod->flags & M_MOD_PERSIST) && g_ctx->state == M_CTX_LOOPING, V_RET == -EPERM))                                        /*@C15.persistent-module-not-deregistered-while-looping*/
 V_ENSURES(V_IMP(mod != NULL && g_modref_in != NULL && !(V_OLD(g_mod->state) & M_MOD_ZOMBIE) && g_mod->ctx != g_mctx, V_RET == -EPERM))        /*@C14.foreign-thread-refused*/
 /* the module is pinned for the duration, the pin is dropped */
-V_ENSURES(V_IMP(V_G_DEREG_OLD(mod), g.ref_calls == V_OLD(g.ref_calls) + 1 && g.unref_calls == V_OLD(g.unref_calls) + 1 && __CPROVER_pointer_equals(g.unref_arg, (void *)g_mod)))  /*@C04.module-pinned-during-deregistration*/
+/* (the stop callback that runs inside takes and drops its own pin: counted as a balance, not as a fixed number) */
+V_ENSURES(V_IMP(V_G_DEREG_OLD(mod), g.ref_calls - V_OLD(g.ref_calls) == g.unref_calls - V_OLD(g.unref_calls) && g.unref_arg == (void *)g_mod))  /*@C04.module-pinned-during-deregistration*/
 V_ENSURES(V_IMP(V_G_DEREG_OLD(mod) && g_maprm_ret != 0, V_RET == g_maprm_ret && g_mod->state == V_OLD(g_mod->state) && g.reset_calls == V_OLD(g.reset_calls)))
 /* any state -> ZOMBIE (final), stopped through stop(): stop callback exactly once, one MOD_STOPPED notification */
 V_ENSURES(V_IMP(V_G_DEREG_OLD(mod) && g_maprm_ret == 0, g_mod->state == M_MOD_ZOMBIE && V_INV
